@@ -278,3 +278,14 @@ var threadStatusWriters = map[string]map[string]bool{
 	"status=1": {"(*runtime.Thread).Yield": true, "runtime.NewThread": true},                                                    // suspended: yielded, or freshly created
 	"status=3": {"(*runtime.Thread).end": true},                                                                                // dead: only when its goroutine ends
 }
+
+// droppedErrorTable: deliberate discards of a Lua-error-returning call, keyed
+// "<function>-><callee>", with count and reason.
+var droppedErrorTable = map[string]internalPanic{}
+
+// pcStoreExceptions: error returns of the interpreter loop that need no
+// c.pc = pc, keyed by the function that produced the error.
+var pcStoreExceptions = map[string]internalPanic{
+	"triggerLine":       {1, "error raised by the line hook (a Lua function called through Call): it carries the hook's own position"},
+	"cleanupCloseStack": {1, "error raised by a __close handler run at function return: it carries the handler's own position"},
+}
